@@ -226,6 +226,9 @@ macro_rules! with_size {
             1024 => $f::<1024>($($args),*),
             4096 => $f::<4096>($($args),*),
             65536 => $f::<65536>($($args),*),
+            100000 => $f::<100000>($($args),*),
+            131072 => $f::<131072>($($args),*),
+            262144 => $f::<262144>($($args),*),
             _ => panic!("SIZE not monomorphised in the harness"),
         }
     };
